@@ -195,7 +195,10 @@ func (v *vmCase) forceRescan() error {
 		return fmt.Errorf("%w: forcing node refused: %v %s", vlib.ErrInfra, err, e)
 	}
 	v.d.g.ApplyEdgePoints(id, v.in.RootID, data.Points{{Type: data.PointTypeTombstone}, {Type: data.PointTypeNodeType, Text: "tforce"}})
-	done := v.wd.Watch("manager:no-scan-after-node-creation", v.wit(nil), 90*time.Second, true)
+	// the manager rescans on every node-type point it sees and, as a fallback, after one minute without
+	// events; the limit is below that fallback (and 300 times what a scan normally needs), so that a node
+	// creation the manager lost track of is told apart from one it acted on
+	done := v.wd.Watch("manager:no-scan-after-node-creation", v.wit(nil), 30*time.Second, true)
 	defer done()
 	for {
 		evs := v.mon.snapshot()
@@ -327,7 +330,7 @@ func (v *vmCase) quiesce() (rounds int, bad string, err error) {
 func runC07(tier string, _ []string) int {
 	c := vlib.NewCtx("C07", tier, "exploration")
 	vlib.SetPortBlock(7)
-	c.SetRule("per case a fresh instance and a real client.Manager for an instrumented client type (vNode, children vChild, parent types group + vParent) registered through the public API; a PRNG history of ~15 operations (create vNode under root / group / nested group / vParent, add and remove vChild, delete and undelete vNodes and the groups holding them, mirror, move, point updates, a vNode created with an undecodable configuration that is then corrected) with 0-40 ms delays injected into the client's Run start / return and at the manager.beforeConstruct / cs.afterStop hook sites; after operations the harness forces a rescan (creating an unrelated node) and waits, in logical steps, for a scan that began afterwards; invariants: I1 never two clients of one placement at once (whole event log), I2 running set == live configured placements with children as constructed == live children (within 6 forced rescans, then stable for 2 more), I3 Manager.Stop stops every client and Run returns (in a quarter of the histories Stop comes right after the last operation, during the scans and restarts it caused). distinct = (operation kinds in the history, rounds needed, number of placements)")
+	c.SetRule("per case a fresh instance and a real client.Manager for an instrumented client type (vNode, children vChild, parent types group + vParent) registered through the public API; a PRNG history of ~15 operations (create vNode under root / group / nested group / vParent, add and remove vChild, delete and undelete vNodes and the groups holding them, mirror, move, point updates, a vNode created with an undecodable configuration that is then corrected, delete / unrelated creation / undelete in quick succession) with 0-40 ms delays injected into the client's Run start / return and at the manager.beforeConstruct / cs.afterStop hook sites; after operations the harness forces a rescan (creating an unrelated node) and waits, in logical steps, for a scan that began afterwards; invariants: I1 never two clients of one placement at once (whole event log), I2 running set == live configured placements with children as constructed == live children (within 6 forced rescans, then stable for 2 more), I3 Manager.Stop stops every client and Run returns (in a quarter of the histories Stop comes right after the last operation, during the scans and restarts it caused). distinct = (operation kinds in the history, rounds needed, number of placements)")
 	c.Assume("the instrumented client's Run returns promptly when Stop is called; a configuration that stays undecodable is not generated (the property does not say what should run for it)")
 	nHist := c.N(100, 600)
 	maxDelay := 40
@@ -441,6 +444,26 @@ func runC07(tier string, _ []string) int {
 					if err != nil || e != "" {
 						opErr = fmt.Errorf("correcting point refused: %v %s", err, e)
 					}
+				}
+			case roll >= 92 && roll < 96 && len(vnodes) > 0:
+				// a node is deleted, something unrelated makes the manager scan while the old client is still
+				// on its way out, and the node comes back at once
+				op = "delete-scan-undelete"
+				n := pick(vnodes)
+				ps := g.Parents(n, false)
+				if len(ps) == 0 {
+					continue
+				}
+				p := ps[r.Intn(len(ps))]
+				e, err := d.sendEdge(n, p, data.Points{{Type: data.PointTypeTombstone, Time: d.now(), Value: 1, Origin: "harness"}})
+				if err == nil && e == "" {
+					_, err = mkNode(g.Root, "tforce", nil)
+				}
+				if err == nil && e == "" {
+					e, err = d.sendEdge(n, p, data.Points{{Type: data.PointTypeTombstone, Time: d.now(), Value: 0, Origin: "harness"}})
+				}
+				if err != nil || e != "" {
+					opErr = fmt.Errorf("delete-scan-undelete: %v %s", err, e)
 				}
 			case roll < 14 || len(containers) < 2:
 				op = "create-container"
